@@ -11,6 +11,10 @@ import BSModel.Gen.Text
     c13 sc <elementClasses> <containers> <top|N> <base|N>     BeautifulSoup.string_container
     c13 interesting <containers> <name>                        Tag.__init__'s interesting_string_types
     c13 strip <cps>
+    c13 iter <kinds> <ops|-> <cls> <interesting> <receiver label> <types> <edit templates ';'|->
+        `for s in receiver._all_strings(False, types): <edit>` on the pointer heap after the history: the k-th string handed
+        out is edited by the k-th template (cyclically; `$` = the label of that string, `_` = no edit; C01 op syntax);
+        reply: the labels handed out, `.`-joined, then ` | ` and the final children lists of all tags
     c13 parsecls <containers> <preserve names ';'|-> <events ';'>
         C03's builder machine (Model/Builder.lean: pushTag/popTag with BOTH context stacks, _popToTag, endData,
         string_container) run with the configuration `builderCfg` of a string_containers table and a
@@ -59,6 +63,7 @@ def parseStrip (s : String) : PyArg :=
 
 def parseInteresting (s : String) : Interesting :=
   if s == "N" then .none
+  else if s.startsWith "n" then .noneOf (parseClsList (s.drop 1).toString)
   else if s.startsWith "o" then .one (parseCls (s.drop 1).toString)
   else .many (parseClsList (s.drop 1).toString)
 
@@ -153,6 +158,7 @@ def showInteresting : Interesting → String
   | .none => "N"
   | .one c => s!"o{codeOf c}"
   | .many cs => "m" ++ (if cs.isEmpty then "-" else ".".intercalate (cs.map (fun c => toString (codeOf c))))
+  | .noneOf cs => "n" ++ (if cs.isEmpty then "-" else ".".intercalate (cs.map (fun c => toString (codeOf c))))
 
 /-! ### the pointer heap -/
 open BS.Heap in
@@ -266,13 +272,51 @@ def handleParseCls (cont pres evs : String) : String :=
     let cs := (build cfg es).flatMap docClasses
     if cs.isEmpty then "-" else ".".intercalate (cs.map toString)
 
+open BS.Heap in
+def handleIter (kinds ops cls ints recv types edits : String) : String :=
+  let h0 := BS.Drv.C01.initHeap kinds
+  match runHist h0 (splitNE ";" ops) with
+  | none => "bad-history"
+  | some h =>
+    match BS.Drv.C01.resolve h recv with
+    | none => "bad-label"
+    | some x =>
+      let n := kinds.length
+      let clsL := natList "." cls
+      let intsL := ints.splitOn ";"
+      let L : Labels := heapLabels n clsL intsL h
+      let tmpl := splitNE ";" edits
+      let edit : Heap → Nat → Nat → Option Op := fun hh k s =>
+        match tmpl[k % (max tmpl.length 1)]? with
+        | none => none
+        | some t => if t == "_" then none else BS.Drv.C01.parseOp hh (t.replace "$" (BS.Drv.C01.label hh s))
+      -- the class of a node is a fixed attribute: library-allocated strings are plain NavigableStrings (or Comments)
+      let Lof : Heap → Labels := fun hh => heapLabels n clsL intsL hh
+      let keep : Heap → Nat → Bool := fun hh e => heapKeeps main (Lof hh) (parseTypes types) x hh e
+      match genStart h x with
+      | .error _ => "crash"
+      | .ok none => "- | " ++ BS.Drv.C01.labels h (h.kids x)
+      | .ok (some st) =>
+        match stringsIterEdit keep edit 100000 h st 0 with
+        | .error e => "err:" ++ BS.Drv.C01.errName e
+        | .ok (l, h') =>
+          let tags := (List.range h'.next).filter (fun i => (h'.kind i).isTag)
+          BS.Drv.C01.labels h' l ++ " | " ++ ",".intercalate (tags.map fun t => s!"{BS.Drv.C01.label h' t}:{BS.Drv.C01.labels h' (h'.kids t)}")
+
 def handle : List String → String
+  | ["iter", kinds, ops, cls, ints, recv, types, edits] => handleIter kinds ops cls ints recv types edits
   | ["parsecls", cont, pres, evs] => handleParseCls cont pres evs
   | ["scarg", dflt, arg] =>
     match builderStringContainers (parseContainers dflt) (parseSCArg arg) with
     | none => "none"
     | some l => "some " ++ showContainers l
   | ["taginit", b, nm, param] => showInit (tagInitInteresting main (parseBuilder b) (cps nm) (parseInteresting param))
+  | ["taginit", b, nm, param, cm] =>   -- a tag class whose MAIN_CONTENT_STRING_TYPES is `cm`
+    showInit (tagInitInteresting (parseClsList (cm.drop 1).toString) (parseBuilder b) (cps nm) (parseInteresting param))
+  | ["pickledsc", pk, dflt, sc] =>
+    (match pickledStringContainers (pk == "1") (parseContainers dflt) (if sc == "N" then none else some (parseContainers (sc.drop 2).toString)) with
+     | none => "none"
+     | some l => "some " ++ showContainers l)
   | ["newtag", b, nm] =>
     (match parseBuilder b with
      | some sc => showInit (newTagInteresting main sc (cps nm))
